@@ -103,11 +103,11 @@ def run_verus_unit(prop, unit, workdir, out, tier, known):
             continue
         if is_extracted and short not in serving:
             continue
-        if not is_extracted and fr.get('mode') not in ('proof',):
-            # prelude exec shims / consts: not obligations of the property
+        if not is_extracted and re.match(r'^[A-Z0-9_]+$', short.split('::')[-1]):
+            # consts: not obligations of the property
             continue
         out.obligations.append({'name': '%s/%s' % (unit, short), 'backend': 'verus+z3', 'ok': bool(fr['success']),
-                                'time_ms': fr['time_ms'], 'kind': 'fn' if is_extracted else 'lemma'})
+                                'time_ms': fr['time_ms'], 'kind': 'fn' if is_extracted else ('lemma' if fr.get('mode') == 'proof' else 'restated/model exec fn')})
     for f in meta['functions']:
         if f['id'] in serving and not f['canary']:
             out.functions.append({'unit': unit, 'fn': f['source_fn'], 'file': f['file'], 'line': f['line'],
